@@ -48,6 +48,11 @@ def run(chk):
         items.append({"tp": {"cell": cl, "degree": 3, "term": "gllcoef"}, "builder": "harness.corpus.realise_tp", "seed": chk.seed + 40 + k,
                       "scalar": "float64", "ninputs": 2, "geom": "affine", "no_oracle": True, "options": {"sum_factorization": True},
                       "twin_options": {"sum_factorization": False}, "label": f"tp/{cl}/Q3gll/gllcoef|sf=1-vs-0"})
+    for k, cl in enumerate(("quadrilateral",) if quick else ("quadrilateral", "hexahedron")):
+        for dg in ((2,) if quick else (2, 3)):
+            items.append({"tp": {"cell": cl, "degree": dg, "term": "gllscheme"}, "must_compile": True, "builder": "harness.corpus.realise_tp", "seed": chk.seed + 60 + 2 * k + dg,
+                          "scalar": "float64", "ninputs": 2, "geom": "affine", "no_oracle": True, "options": {"sum_factorization": True},
+                          "twin_options": {"sum_factorization": False}, "label": f"tp/{cl}/Q{dg}/gllscheme|sf=1-vs-0"})
     # ordinary elements: the option is off, or does not apply
     add(s5.sample_cases(tp, 4 if quick else 60, chk.seed, max_cost=40 if quick else 400), {"sum_factorization": False}, "sf=0")
     dg = s5.sample_cases(r2, 12 if quick else 120, chk.seed + 2, max_cost=40 if quick else 400)
